@@ -49,7 +49,8 @@ def run_one(prop, anchors):
         with open(rc_file, 'w') as fh:
             fh.write('[run]\nbranch = False\nparallel = True\nconcurrency = thread\n'
                      f'data_file = {work}/.coverage\nsource = {REPO}/circuits\n')
-        env = dict(os.environ, VERIF_OUT=work, VERIF_SEED='0', COVERAGE_RCFILE=rc_file, VERIF_REPO=REPO)
+        env = dict(os.environ, VERIF_OUT=work, VERIF_SEED='0', COVERAGE_RCFILE=rc_file, VERIF_REPO=REPO,
+                   VERIF_CHILD='1')   # run the verdict procedure in this (measured) process, not under the supervisor
         p = subprocess.run(['/venv/bin/python', '-m', 'coverage', 'run', os.path.join(HERE, 'check'), prop, '--tier', 'quick'],
                            cwd=HERE, env=env, capture_output=True, text=True, timeout=3600)
         subprocess.run(['/venv/bin/python', '-m', 'coverage', 'combine'], cwd=work, env=env, capture_output=True, text=True)
